@@ -145,6 +145,112 @@ Proof.
   - (* provider stream: publish *)
     unfold v2_stream_publish.
     destruct (update_entries st (get_perm st p) (stream_updates l)) as [st' errs]. reflexivity.
+  - (* v1 streamed update: one message *)
+    unfold v1_stream_msg. destruct (v1_stream_resolve (st_db st) l [] [] 0) as [ups pre] eqn:R. cbn [fst snd api_core].
+    destruct (update_entries st (get_perm st p) ups) as [st' errs]. reflexivity.
+  - (* sdv stream: one message *)
+    unfold sdv_stream_msg, sdv_update.
+    destruct (update_entries st (get_perm st p) (map (fun '(id, w) => (id, dp_upd (from_wire w))) l)) as [st' errs].
+    reflexivity.
+Qed.
+
+(* ---------- the client streams of kuksa.val.v1 and sdv (C01 at the handler) ---------- *)
+(* a message of sdv StreamDatapoints is exactly one UpdateDatapoints *)
+Theorem sdv_stream_msg_is_update st p l : sdv_stream_msg st p l = sdv_update st p l.
+Proof. reflexivity. Qed.
+
+(* what a StreamedUpdate message hands to the core does not depend on the elements it turns away: an element
+   that names a registered signal and carries no target for a non-actuator is forwarded unchanged, in order *)
+Definition v1_forwardable (db : database) (u : v1_update) : option (Z * upd) :=
+  match v1_path u with
+  | None => None
+  | Some path =>
+    match lookup_path (path_to_id db) path with
+    | None => None
+    | Some id =>
+      match v1_target u, lookup_id (entries db) id with
+      | Some _, Some e => if entry_type_eqb (m_etype (e_meta e)) Actuator then Some (id, v1_to_upd u) else None
+      | _, _ => Some (id, v1_to_upd u)
+      end
+    end
+  end.
+
+Fixpoint filter_map {A B} (f : A -> option B) (l : list A) : list B :=
+  match l with
+  | [] => []
+  | x :: r => match f x with Some y => y :: filter_map f r | None => filter_map f r end
+  end.
+
+Lemma v1_stream_resolve_ups db l : forall ups pre idx,
+  fst (v1_stream_resolve db l ups pre idx) = rev ups ++ filter_map (v1_forwardable db) l.
+Proof.
+  induction l as [|u r IH]; intros ups pre idx; cbn [v1_stream_resolve filter_map].
+  - cbn [fst]. rewrite app_nil_r. reflexivity.
+  - unfold v1_forwardable at 1. destruct (v1_path u) as [path|]; [|apply IH].
+    destruct (lookup_path (path_to_id db) path) as [id|]; [|apply IH].
+    destruct (v1_target u) as [t|].
+    + destruct (lookup_id (entries db) id) as [e|].
+      * destruct (entry_type_eqb (m_etype (e_meta e)) Actuator); cbn [negb].
+        -- rewrite IH. cbn [rev]. rewrite <- app_assoc. reflexivity.
+        -- apply IH.
+      * rewrite IH. cbn [rev]. rewrite <- app_assoc. reflexivity.
+    + destruct (lookup_id (entries db) id) as [e|]; rewrite IH; cbn [rev]; rewrite <- app_assoc; reflexivity.
+Qed.
+
+Theorem v1_stream_msg_is_core st p l :
+  fst (v1_stream_msg st p l) = fst (update_entries st p (filter_map (v1_forwardable (st_db st)) l)).
+Proof.
+  unfold v1_stream_msg. pose proof (v1_stream_resolve_ups (st_db st) l [] [] 0) as H.
+  destruct (v1_stream_resolve (st_db st) l [] [] 0) as [ups pre]. cbn [fst rev app] in H. subst ups.
+  destruct (update_entries st p (filter_map (v1_forwardable (st_db st)) l)) as [st' errs]. reflexivity.
+Qed.
+
+(* every element the handler turns away itself is reported, and with nothing else than 400 or 404 *)
+Lemma v1_stream_resolve_pre db l : forall ups pre idx,
+  (length (snd (v1_stream_resolve db l ups pre idx)) + length (filter_map (v1_forwardable db) l)
+   = length pre + length l)%nat.
+Proof.
+  induction l as [|u r IH]; intros ups pre idx; cbn [v1_stream_resolve filter_map length].
+  - cbn [snd]. rewrite rev_length. lia.
+  - assert (K : forall a b c, (length (snd (v1_stream_resolve db r a b c)) + length (filter_map (v1_forwardable db) r)
+                               = length b + length r)%nat) by (intros; apply IH).
+    unfold v1_forwardable at 1. destruct (v1_path u) as [path|];
+      [|rewrite K; cbn [length]; lia].
+    destruct (lookup_path (path_to_id db) path) as [id|]; [|rewrite K; cbn [length]; lia].
+    destruct (v1_target u) as [t|].
+    + destruct (lookup_id (entries db) id) as [e|].
+      * destruct (entry_type_eqb (m_etype (e_meta e)) Actuator); cbn [negb length];
+          match goal with |- context[v1_stream_resolve db r ?a ?b ?c] => pose proof (K a b c) as Hx end;
+          cbn [length] in Hx; lia.
+      * cbn [length].
+        match goal with |- context[v1_stream_resolve db r ?a ?b ?c] => pose proof (K a b c) as Hx end; lia.
+    + destruct (lookup_id (entries db) id) as [e|]; cbn [length];
+        match goal with |- context[v1_stream_resolve db r ?a ?b ?c] => pose proof (K a b c) as Hx end; lia.
+Qed.
+
+Theorem v1_stream_every_element_answered_or_forwarded st l :
+  (length (snd (v1_stream_resolve (st_db st) l [] [] 0)) + length (filter_map (v1_forwardable (st_db st)) l)
+   = length l)%nat.
+Proof. rewrite v1_stream_resolve_pre. reflexivity. Qed.
+
+(* Set and StreamedUpdate agree on a request Set does not refuse as a whole: same core update *)
+Theorem v1_set_stream_same_core st l ups nf :
+  v1_set_resolve (st_db st) l [] [] 0 = inl (ups, nf) ->
+  fst (v1_stream_resolve (st_db st) l [] [] 0) = ups.
+Proof.
+  assert (G : forall l' a b idx ups' nf' pre,
+             v1_set_resolve (st_db st) l' a b idx = inl (ups', nf') ->
+             fst (v1_stream_resolve (st_db st) l' a pre idx) = ups').
+  { clear. induction l' as [|u r IH]; intros a b idx ups' nf' pre; cbn [v1_set_resolve v1_stream_resolve].
+    - intros H; inversion H; reflexivity.
+    - destruct (v1_path u) as [path|]; [|discriminate].
+      destruct (lookup_path (path_to_id (st_db st)) path) as [id|]; [|apply IH].
+      destruct (v1_target u) as [t|].
+      + destruct (match lookup_id (entries (st_db st)) id with
+                  | Some e => negb (entry_type_eqb (m_etype (e_meta e)) Actuator) | None => false end);
+          [discriminate|apply IH].
+      + apply IH. }
+  apply G.
 Qed.
 
 (* ---------- the provider stream (C09 / C10 / C01 at the handler) ---------- *)
